@@ -351,7 +351,7 @@ def bare_drive_checks(ctx):
     for bi, d in enumerate(bare):
         if not ctx.mine(bi):
             continue
-        for case_flags in ((), ('CASE',), ('IGNORECASE',)):
+        for case_flags in ((), ('CASE',), ('IGNORECASE',), ('MATCHBASE',), ('MATCHBASE', 'CASE', 'GLOBSTAR'), ('NODIR',), ('DOTMATCH', 'NEGATE')):
             for as_bytes in (False, True):
                 conv = (lambda x: x.encode('ascii')) if as_bytes else (lambda x: x)
                 fl = flags_of(('FORCEWIN',) + case_flags)
@@ -364,10 +364,12 @@ def bare_drive_checks(ctx):
                     stem = d.rstrip('/')
                     same = [d, d.swapcase(), d.replace('/', '\\'), d.upper(), d + '/', stem + '\\']
                     other = [stem.replace('host', 'hosx').replace('c:', 'd:').replace('pipe', 'pipx').replace('//h/s', '//h/t').replace('b75e', 'b75f') + d[len(stem):],
-                             stem + 'x', stem[:-1], stem + '/x']
+                             stem + 'x', stem[:-1], stem + '/x', 'x/' + stem.lstrip('/'), 'x/y/' + stem.lstrip('/') + d[len(stem):], 'x\\' + stem.lstrip('/')]
                     for n in same:
                         ctx.evals()
                         ctx.count('bare_drive_checks')
+                        if 'NODIR' in case_flags and (n.endswith('/') or n.endswith('\\')):
+                            continue
                         if m.match(conv(n)) is not True:
                             ctx.disagree('a bare drive/UNC prefix does not match its own text (case / separator spelling / closing separator)|glob',
                                          {'drive': d, 'pattern': d, 'name': n, 'flags': list(case_flags) + ['FORCEWIN'], 'bytes': as_bytes})
